@@ -233,6 +233,12 @@ struct Ports
      */
     static char *collapsePath(char *p);
 
+#ifdef RTOSC_VERIF_HOOKS
+    /** Verification hook: 1 if dispatch() with a location buffer uses the
+     *  perfect-hash lookup for this table, 0 if it scans linearly */
+    int verif_lookup_kind(void) const;
+#endif
+
     protected:
     void refreshMagic(void);
     private:
